@@ -49,6 +49,87 @@ def gen_cases(n, seed, unimock, label):
     return cases
 
 
+# Hand-written gallery of signature shapes the random grammar does not reach ("any further parameters ... any return
+# type"): (signature after `fn NAME`, body, call args, expected Debug of the result). `NAME`, `DEPS` are substituted.
+GALLERY = [
+    ("<D>(deps: &D, cb: impl Fn(i32) -> i32 + Send) -> i32", "{ cb(20) + 1 }", "|x| x * 2", "41"),
+    ("<D, F>(deps: &D, cb: F, s: &str) -> usize where F: for<'x> Fn(&'x str) -> &'x str", "{ cb(s).len() }", "|x| &x[1..], \"hello\"", "4"),
+    ("<D>(deps: &D, it: &mut dyn Iterator<Item = u8>) -> Option<u8>", "{ it.next() }", "&mut [7u8, 8].into_iter()", "Some(7)"),
+    ("<D>(deps: &D, n: u8) -> impl Iterator<Item = u8> + 'static", "{ (0..n).map(|x| x * 2) }", "3", None),
+    ("<D>(deps: &D, x: [u8; 4], y: &[u8], z: (u8, &str)) -> Result<Vec<u8>, Box<dyn ::std::error::Error + Send + Sync>>",
+     "{ let mut v = x.to_vec(); v.extend_from_slice(y); v.push(z.0); v.push(z.1.len() as u8); Ok(v) }", "[1, 2, 3, 4], &[5, 6], (7, \"ab\")", None),
+    ("<'a, D>(deps: &'a D, xs: &'a [&'a str]) -> impl Iterator<Item = &'a str> + 'a", "{ xs.iter().copied().filter(|s| s.len() > 1) }", "&[\"a\", \"bc\", \"def\"]", None),
+    ("<D, T>(deps: &D, t: T) -> Vec<T::Item> where T: Iterator, T::Item: Clone", "{ t.collect() }", "[1u8, 2, 3].into_iter()", "[1, 2, 3]"),
+    ("<D>(deps: &D, p: *const u8, f: fn(u8) -> u8, s: &'static str) -> (bool, u8, &'static str)", "{ (p.is_null(), f(2), s) }", "::core::ptr::null(), |x| x + 1, \"st\"", "(true, 3, \"st\")"),
+    ("<D>(deps: &D, v: &mut Vec<u8>, k: u8) -> usize", "{ v.push(k); v.len() }", "&mut vec![1, 2], 9", "3"),
+    ("<D>(deps: &D, o: Option<&mut i32>) -> i32", "{ if let Some(x) = o { *x += 1; *x } else { 0 } }", "Some(&mut 41)", "42"),
+    ("<D>(deps: &D, b: Box<dyn Fn(u8) -> u8 + Send + Sync + 'static>) -> u8", "{ b(1) }", "Box::new(|x| x + 5)", "6"),
+    ("<D, const N: usize>(deps: &D, a: [u8; N], b: [u8; N]) -> usize", "{ N + a.len() + b.len() }", "[1, 2], [3, 4]", "6"),
+    ("<D, A, B>(deps: &D, a: A, b: B) -> (B, A) where A: Clone + Send, B: Clone + Send", "{ (b, a) }", "1u8, \"x\"", "(\"x\", 1)"),
+    ("<D>(deps: &D, r: ::core::ops::Range<u8>, (lo, hi): (u8, u8), [x, y]: [u8; 2]) -> u8", "{ r.end - r.start + lo + hi + x + y }", "1..4, (1, 2), [3, 4]", "13"),
+    ("<'a, 'b, D>(deps: &'a D, x: &'b mut &'a str) -> &'a str where 'a: 'b", "{ *x }", "&mut \"hi\"", "\"hi\""),
+    ("<D>(deps: &D, x: u8, y: u8, z: u8, w: u8, v: u8, u: u8, t: u8, s: u8, r: u8, q: u8, p: u8, o: u8) -> u32",
+     "{ (x as u32) + 2 * (y as u32) + 3 * (z as u32) + 4 * (w as u32) + 5 * (v as u32) + 6 * (u as u32) + 7 * (t as u32) + 8 * (s as u32) + 9 * (r as u32) + 10 * (q as u32) + 11 * (p as u32) + 12 * (o as u32) }",
+     "1, 2, 3, 4, 5, 6, 7, 8, 9, 10, 11, 12", "650"),
+    ("<D>(deps: &D, res: Result<u8, ()>) -> Result<u8, ()>", "{ let v = res?; Ok(v + 1) }", "Ok(1)", "Ok(2)"),
+    ("<D>(deps: &D, c: char, f: f64, i: i128, u: usize, un: ()) -> ::std::string::String", "{ ::std::format!(\"{c}{f}{i}{u}{un:?}\") }", "'c', 1.5, -3, 4, ()", "\"c1.5-34()\""),
+    ("<D>(deps: &D, cow: ::std::borrow::Cow<'_, str>) -> usize", "{ cow.len() }", "::std::borrow::Cow::Borrowed(\"abc\")", "3"),
+    ("<D>(deps: &D, x: &&&u8) -> u8", "{ ***x + 1 }", "&&&4", "5"),
+]
+
+
+def gallery_cases(label):
+    out = []
+    for gi, (sig, body, args, want) in enumerate(GALLERY):
+        for form in ("fn", "async", "mod", "unsafe"):
+            cid = "c03g%s_%02d_%s" % (label, gi, form)
+            is_async = form == "async"
+            if is_async and ("'a" in sig.split("(")[0] and "impl Iterator" in sig):
+                continue
+            if is_async and any(x in sig for x in ("<D, F>", "<D, T>", "dyn Iterator", "*const", "impl Fn(i32) -> i32 + Send) -> i32" if False else "<D, F>")):
+                continue   # a future capturing a non-Send argument cannot be Send: rustc's rule
+            q = {"fn": "", "async": "async ", "mod": "pub ", "unsafe": "unsafe "}[form]
+            fn = "%sfn subj%s %s" % (q, sig, body)
+            if is_async and ("dyn Iterator" in sig or "*const" in sig or "&mut Vec" in sig and False):
+                continue   # non-Send arguments in a Send future: rustc's rule
+            if form == "mod":
+                item = "#[::entrait::entrait(pub Subj)] /*@inv*/\npub mod m { use super::*; %s }" % fn
+                path = "m::subj"
+            else:
+                item = "#[::entrait::entrait(pub Subj)] /*@inv*/\n%s" % fn
+                path = "subj"
+            w = (lambda c: "::vrt::block_on(%s)" % c) if is_async else ((lambda c: "unsafe { %s }" % c) if form == "unsafe" else (lambda c: c))
+            dbg = "&::std::format!(\"{:?}\", %s)"
+            needs_collect = "impl Iterator" in sig
+            conv = (lambda e: "%s.collect::<::std::vec::Vec<_>>()" % e) if needs_collect else (lambda e: e)
+            generic_args = "::<u8, _>" if False else ""
+            run = ["pub fn run() {", "    let app = ::entrait::Impl::new(());",
+                   '    ::vrt::phase("direct"); { let r = %s; ::vrt::result(&r); }' % conv(w("%s(&app, %s)" % (path, args))),
+                   '    ::vrt::phase("trait"); { let r = %s; ::vrt::result(&r); }' % conv(w("app.subj(%s)" % args)), "}"]
+            out.append(core.Case(cid, item + "\n" + "\n".join(run) + "\n", meta={"gallery": gi, "form": form, "want": want, "nontrivial": True, "sig": sig}))
+    return out
+
+
+def check_gallery(c, rep):
+    if c.removed is not None:
+        d = (c.removed["diags"] or [{}])[0]
+        rep.violation(c.id, "gallery-compile:%s:%s" % (d.get("code"), d.get("message", "")[:60]),
+                      "signature `fn subj%s` (%s) does not compile: %s" % (c.meta["sig"], c.meta["form"], d.get("message", "")[:300]))
+        return
+    rec = c.runrec.get("bin")
+    if not rec or rec.get("panic") or rec.get("crash"):
+        rep.violation(c.id, "gallery-crash", "gallery case died: %s" % (rec,))
+        return
+    ph = {p["label"]: p for p in rec["phases"]}
+    d, t = ph["direct"]["result"], ph["trait"]["result"]
+    if c.meta["want"] is not None and d != c.meta["want"]:
+        raise core.Inconclusive("harness: gallery %s direct result %s, expected %s" % (c.id, d, c.meta["want"]))
+    if d != t:
+        rep.violation(c.id, "gallery-result", "`fn subj%s`: trait call returns %s, direct call %s" % (c.meta["sig"], t, d))
+    rep.bump("gallery_cases_checked")
+    rep.count(c.sig(), True)
+
+
 # inputs of recorded findings (never produced by the random generator)
 KNOWN_PINS = [
     ("shared_generic_name", "#[::entrait::entrait(pub M)] /*@inv*/\npub mod m { pub fn a<D, T>(deps: &D, t: T) {} pub fn b<D, T>(deps: &D, t: T) {} }\npub fn run() {}\n"),
@@ -71,11 +152,15 @@ def run(tier, seed):
         st = selftest.case("selftest_c03" + label)
         ws = core.Workspace(PROP, label, unimock=unimock)
         pins = [core.Case("c03known%s_%s" % (label, name), src, meta={"pin": name, "nontrivial": True}) for name, src in KNOWN_PINS]
-        ws.extend(cases + pins + [st])
+        gal = gallery_cases(label)
+        ws.extend(cases + pins + gal + [st])
         ws.write()
         b = ws.build()
         ws.run(b["exes"])
         selftest.verify(st)
+        for c in gal:
+            allc[c.id] = c
+            check_gallery(c, rep)
         for c in pins:
             allc[c.id] = c
             if c.removed is not None:
